@@ -334,7 +334,9 @@ fn run_stream_inner(c: &StreamCase) -> Result<CaseReport, Stop> {
     if c.small_bufs & 1 != 0 {
         set_bufsize(wfd, true, 4096);
     }
-    if c.small_bufs & 2 != 0 {
+    if c.small_bufs & 2 != 0 && !c.tcp {
+        // (a TCP receive buffer below the loopback MSS makes the kernel crawl through
+        // zero-window probes: seconds per case and nothing about the library)
         set_bufsize(rfd, false, 4096);
     }
     let plan = PeerPlan { chunks: c.peer_chunks.clone(), floor, start_delay_us: c.peer_start_delay_us, pause_every: c.peer_pause_every, pause_us: c.peer_pause_us };
@@ -498,6 +500,7 @@ fn run_stream_inner(c: &StreamCase) -> Result<CaseReport, Stop> {
         compare_streams(ty, "the tiny-std reader", &data, &got)?;
         let cycles = blocked_cycles(&log, sc::nr::READ, EAGAIN);
         rep.class_if(cycles > 0, "reader-blocked");
+        rep.class_if(read_blocked_mid_stream(&log) > 0, "reader-blocked-mid-stream");
         rep.class_if(c.eof_handshake, "eof-only-after-close");
         rep.nontrivial_if(cycles > 0);
     }
